@@ -65,6 +65,12 @@ def analyse(m, fname, key, rw, level, line_size):
             if op in ("load", "store", "atomicrmw", "cmpxchg", "fence", "invoke", "alloca", "va_arg"):
                 return REFUTED, "%s instruction in a prefetch function (%s)" % (op, i.get("loc", "")), rule, {
                     "note": "memory is accessed: an inaccessible pointer faults / memory may change"}
+            if op in ("udiv", "sdiv", "urem", "srem"):
+                # a hardware division traps (SIGFPE) on a zero divisor: the divisor must be provably non-zero
+                v_, d_, w_ = _division_safe(m, fname, f, i)
+                if v_ != HOLDS:
+                    return v_, d_, rule, w_
+                continue
             if op not in PURE_OPS:
                 return UNDECIDED, "instruction %s" % op, rule, None
     # termination: every loop must have an induction variable iv = init + k*s (s a positive constant) and an unsigned
@@ -76,6 +82,33 @@ def analyse(m, fname, key, rw, level, line_size):
     if npf == 0:
         return HOLDS, "no prefetch and no memory access at all (hint compiled out)", rule, None
     return HOLDS, "%d llvm.prefetch call(s), stride %s with a provably exceeded bound, no load/store/call" % (npf, strides), rule, None
+
+
+def _division_safe(m, fname, f, ins):
+    import irterm
+    import isa
+    import term as T
+    I = irterm.Interp(m, isa.TABLE)
+    try:
+        I.summarise(fname, None)
+    except Exception as e:
+        return UNDECIDED, "division: cannot summarise (%s)" % e, None
+    dv = ins["ops"][1]
+    d = I._vals.get(dv["id"]) if dv["k"] == "i" else (I._args[dv["n"]] if dv["k"] == "a" else I.const_term(dv))
+    if d is None:
+        return UNDECIDED, "division: divisor term unavailable", None
+    if T.nonzero(d):
+        return HOLDS, "divisor provably non-zero", None
+    names = ["ptr", "n"]
+    for nval in (0, 1, 2, 64, 4096, (1 << 63), (1 << 64) - 1):
+        for pval in (0, 0x1000, 0x7fff0000):
+            try:
+                if T.ev(d, {"args": [pval, nval]}) == 0:
+                    return REFUTED, ("%s by %s at %s: the divisor is zero for this call, the division traps (SIGFPE)" % (
+                        ins["op"], T.show(d, 3, names), ins.get("loc", "?"))), {"ptr": hex(pval), "n": nval}
+            except (T.Uneval, IndexError):
+                break
+    return UNDECIDED, "%s whose divisor %s is not provably non-zero" % (ins["op"], T.show(d, 3, names)), None
 
 
 N_BITS = 44      # byte counts up to 16 TiB: far beyond "several pages", small enough that i += 64 cannot wrap
